@@ -66,6 +66,7 @@ def gen_cases(tier, seed):
         T, tcls = bases.rand_transform(rng, ntot, "none" if i % 3 else None)
         cases.append({"shells": shells, "transform": T, "bracket": [t0, side],
                       "classes": ["nsh:%d" % nsh, tcls, "types:" + ("mixed" if len(set(tp)) > 1 else tp[0]), "bracket:%s" % ("inside" if side < 1 else "outside")], "cost": nsh * nsh})
+    cases += bases.argrep_variants("C20", seed, tier, cases, 6, ok=lambda c: "shells" in c and c.get("kind") in (None, "whole", "kernel", "perm", "real"))  # constructor arguments in other in-memory representations
     return cases
 
 
